@@ -49,6 +49,11 @@ FAULTS = {
 CLEANUP_FAULTS = [('errno', E.EACCES), ('errno', E.EIO)]
 
 
+REQUIRED_PROBES = ['fault_pair_both_fired', 'second-party-creates-dest', 'second-party-creates-part',
+                   'raw.write:short', 'raw.write:disk-full', 'fsync:EIO', 'raw.close:EIO', 'chmod:EPERM',
+                   'open:ENOSPC', 'rename:EACCES', 'link:EMLINK', 'cleanup-unlink:EIO']
+
+
 def setup(root):
     S.setup(root)
 
